@@ -3,7 +3,7 @@ import brokercheck, monitors
 
 
 def run(res):
-    brokercheck.run(res, "C01", "Props/C01.v", monitors.monitor_c01)
+    brokercheck.run(res, "C01", ["Props/C01.v", "Props/C01_history.v"], monitors.monitor_c01)
 
 
 def replay(path):
